@@ -286,6 +286,8 @@ fn main() {
 
         *per_op.entry(name).or_default() += 1;
         writeln!(out, "{}", ev).unwrap();
+        // the code under test may bring the process down: keep the log complete
+        out.flush().unwrap();
         if let Some(w) = script.as_mut() { writeln!(w, "{}", o).unwrap(); }
     }
 
